@@ -112,7 +112,7 @@ FIELD_NAMES = ['some_val', 'when_at', 'inner_obj', 'dflt_val']
 FIELD_DEFAULTS = {'dflt_val': ['int', 3]}          # canonical defaults of the universe's defaulted scalar fields
 
 
-def pick_meta2(rng):
+def pick_meta2(rng, v1=False):
     """settings split by direction: {'dump': {...}, 'load': {...}, 'special': {...}}"""
     m = {'dump': {}, 'load': {}, 'special': {}}
     if rng.random() < 0.6:
@@ -133,6 +133,17 @@ def pick_meta2(rng):
         m['special']['recursive'] = False
     if not (m['dump'] or m['load'] or m['special']):
         m['dump']['key_transform_with_dump'] = rng.choice(STYLES)
+    if v1:
+        # the v1 engine: its own key case, unknown-key policy and (special, non-inherited) field-to-alias table
+        m['load'] = {'v1': True}
+        case = rng.choice([None, 'AUTO', 'CAMEL', 'SNAKE', 'PASCAL'])
+        if case:
+            m['load']['v1_key_case'] = case
+        if rng.random() < 0.3:
+            m['load']['v1_on_unknown_key'] = 'RAISE'
+        m['special'].pop('json_key_to_field', None)
+        if rng.random() < 0.55:
+            m['special']['v1_field_to_alias'] = {'some_val': ALIAS_KEY}
     return m
 
 
@@ -201,8 +212,10 @@ def _inst2(name, nested_expr=None, shape='single'):
 
 
 def _doc2(rng, nested=False, shape='single', alias=False, extra=False, spell=False):
+    one = rng.choice([None, None, 'CAMEL', 'PASCAL', 'LISP']) if spell else 'SNAKE'      # one spelling for the whole document, or one per key
+
     def key(k):
-        return _spell(k, rng.choice(['SNAKE', 'CAMEL', 'PASCAL', 'LISP'])) if spell else k
+        return _spell(k, one or rng.choice(['SNAKE', 'CAMEL', 'PASCAL', 'LISP']))
     d = {key('some_val'): rng.choice([1, 2]), key('when_at'): rng.choice(['2020-01-01T00:00:00Z', 5])}
     if rng.random() < 0.4:
         d[key('dflt_val')] = 4
@@ -223,14 +236,23 @@ def _doc2(rng, nested=False, shape='single', alias=False, extra=False, spell=Fal
 def _ops2(rng, name, kind, nested, shape, uses, n_docs=3, n_dumps=2):
     """a pool of dumps and loads of one class: documents in every key spelling, with the configured family's alias key and an
     unknown key now and then"""
-    can_method = kind != 'plain'
+    dump_vias, load_vias = ['asdict', 'asdict'], ['fromdict', 'fromdict']
+    if KINDS[kind][1]:                      # JSONWizard API
+        dump_vias += ['method', 'to_json']
+        load_vias += ['method', 'json']
+    if MIXIN_GROUP[kind] == 'Y':
+        dump_vias.append('yaml')
+        load_vias.append('yaml')
+    if MIXIN_GROUP[kind] == 'T':
+        dump_vias.append('toml')
+        load_vias.append('toml')
     pool = []
     for _ in range(n_dumps):
         pool.append({'op': 'dump', 'cls': name, 'expr': _inst2(name, _inst2(nested) if nested else None, shape),
-                     'via': rng.choice(['asdict', 'method'] if can_method else ['asdict']), 'uses': uses})
+                     'via': rng.choice(dump_vias), 'uses': uses})
     for _ in range(n_docs):
         pool.append({'op': 'load', 'cls': name, 'doc': _doc2(rng, bool(nested), shape, alias=rng.random() < 0.65, extra=rng.random() < 0.3, spell=rng.random() < 0.7),
-                     'via': rng.choice(['fromdict', 'method'] if can_method else ['fromdict']), 'uses': uses})
+                     'via': rng.choice(load_vias), 'uses': uses})
     return pool
 
 
@@ -240,7 +262,7 @@ def gen_pair2(rng, relation):
     f_kind = rng.choice(list(KINDS))
     _, can_inner, _ = KINDS[f_kind]
     f_style = rng.choice((['inner', 'inner'] if can_inner else []) + ['bind-load', 'bind-dump', 'bind-both'])
-    f_meta = pick_meta2(rng)
+    f_meta = pick_meta2(rng, v1=rng.random() < 0.25)
     shape = rng.choice(['single', 'single', 'list', 'optional'])
     n_kind = rng.choice(['plain', 'plain', 'json'])
     n_defs, _ = cls2(rng, n, n_kind)
@@ -251,7 +273,7 @@ def gen_pair2(rng, relation):
         n2, g = model.fresh('N'), model.fresh('G')
         # the unrelated family often uses the same mixin as the configured one
         g_kind = rng.choice([k for k in KINDS if MIXIN_GROUP[k] == MIXIN_GROUP[f_kind]]) if rng.random() < 0.6 else rng.choice(list(KINDS))
-        g_meta = pick_meta2(rng) if rng.random() < 0.25 else None
+        g_meta = pick_meta2(rng, v1=rng.random() < 0.2) if rng.random() < 0.25 else None
         g_style = rng.choice((['inner'] if KINDS[g_kind][1] else []) + ['bind-load', 'bind-dump', 'bind-both']) if g_meta else None
         g_shape = rng.choice(['single', 'list'])
         n2_defs, _ = cls2(rng, n2, rng.choice(['plain', 'json']))
@@ -263,7 +285,7 @@ def gen_pair2(rng, relation):
     elif relation == 'shared-nested':
         g = model.fresh('G')
         g_kind = rng.choice(list(KINDS))
-        g_meta = pick_meta2(rng) if rng.random() < 0.4 else None
+        g_meta = pick_meta2(rng, v1=rng.random() < 0.2) if rng.random() < 0.4 else None
         g_style = rng.choice((['inner'] if KINDS[g_kind][1] else []) + ['bind-load', 'bind-dump', 'bind-both']) if g_meta else None
         g_shape = rng.choice(['single', 'list'])
         g_defs, _ = cls2(rng, g, g_kind, n, g_shape, g_meta, g_style)
